@@ -474,6 +474,42 @@ pub fn run(opts: &Opts, out: &mut Emitter) {
     for s in PAST_FAILURES.iter() {
         out.case("past-failure", || json!({"input": s, "obs": observe(s)}));
     }
+    // malformed-literal sweep: a literal the grammar admits and lowering cannot read (hex with an odd number of
+    // digits) at every literal position of a few programs in turn - metadata, signers, validity and directive
+    // fields included; whoever looks at a literal before lowering does must not assume it is well formed
+    for _ in 0..(if opts.thorough { 40 } else { 6 }) {
+        let (mut p, _w) = c01p::gen(&mut r);
+        {
+            let t = &mut p.txs[0];
+            if t.metadata.is_none() {
+                t.metadata = Some(vec![(E::Num(674), E::Hex("c0ffee".into())), (E::Num(675), E::Str("memo".into()))]);
+            }
+            if t.signers.is_none() {
+                t.signers = Some(vec![E::Hex("aa".repeat(28))]);
+            }
+        }
+        let is_lit = |e: &E| matches!(e, E::Hex(_) | E::Str(_) | E::Num(_));
+        let mut count = 0usize;
+        visit_tx(&mut p.txs[0], &mut |e| {
+            if is_lit(e) {
+                count += 1;
+            }
+        });
+        for at in 0..count {
+            let mut q = p.clone();
+            let mut seen = 0usize;
+            visit_tx(&mut q.txs[0], &mut |e| {
+                if is_lit(e) {
+                    if seen == at {
+                        *e = E::Hex("abc".into());
+                    }
+                    seen += 1;
+                }
+            });
+            let src = print_program(&mut Layout::plain(), &q);
+            out.case("odd-hex-sweep", || json!({"program": program_json(&q), "mutations": ["odd-hex"], "input": src, "obs": observe(&src)}));
+        }
+    }
     let corpus = frontp::example_corpus();
     for k in 0..opts.n {
         if k % 5 == 4 {
